@@ -13,15 +13,26 @@
    Randomness: when initial_sequence_number / initial_timestamp_offset are None the code draws
    random_u32() for a new source stream; the draws travel with the input (`i_r16`, `i_r32`) so the
    theorems quantify over all of them (the harness always sets the options).
-   Not modelled: SRTP protection of the relayed packet, observers, counters, the socket send. *)
+   Header extensions are the raw block (profile, data bytes); SDES-MID stamping is the byte-level
+   `set_extension` of C15's Model/Rtp.v (imported, not copied).
+   Transport level (`tstep`): installing a bridge (fresh per-source state, whatever was there),
+   clearing it (packets go to the listeners again), packets that fail the source's SRTP unprotect /
+   parse (dropped before anything else, no state change), and the target's SRTP mode: the
+   rewritten plaintext packet is protected with the target's session when there is one; a target
+   that requires SRTP but has no session yet swallows the packet AFTER it was rewritten (the
+   stream's sequence counter has advanced).  SRTP itself is C04/C05; here it is the identity on the
+   plaintext stream, which the harness checks with a reference unprotect on the target socket.
+   Not modelled: observers, counters, the socket send. *)
 From Coq Require Import ZArith List Bool.
 From RV Require Import Lib.Wrap.
 From RV Require Import Gen.RtpBridge.
+From RV Require Model.RtpLib.
+From RV Require Model.Rtp.
 Import ListNotations.
 Open Scope Z_scope.
 Open Scope bool_scope.
 
-Definition bext : Set := (Z * list (Z * list Z))%type.     (* profile, elements (id, data) *)
+Definition bext : Set := (Z * list Z)%type.     (* profile, raw extension data *)
 
 Record bpkt : Set := mkBPkt {
   q_ssrc : Z; q_pt : Z; q_seq : Z; q_ts : Z; q_marker : bool; q_ext : option bext }.
@@ -115,29 +126,25 @@ Definition new_marker (o : bopts) (ss : sstate) (m : bool) : bool :=
 Definition next_state (o : bopts) (ss : sstate) (ts : Z) : sstate :=
   mkSS (out_ssrc ss) (cast_u16 (next_seq ss + bridge_seq_step)) (new_last ss ts) (new_off o ss ts).
 
-(* RtpHeader::set_extension on a well-formed one-byte block, element-wise: every element with the
-   id is replaced, otherwise one is appended; other profiles and illegal id / length: unchanged *)
-Definition zlen (l : list Z) : Z := Z.of_nat (length l).
-Definition stamp (id : Z) (mid : list Z) (e : option bext) : option bext :=
-  if (id =? ext_id_min_invalid) || (ext_id_limit <=? id) then e
-  else if (ext_data_max <? zlen mid) || (zlen mid =? 0) then e
-  else match e with
-       | None => Some (ext_profile_one_byte, [(id, mid)])
-       | Some (prof, els) =>
-           if prof =? ext_profile_one_byte
-           then Some (prof,
-                      if existsb (fun el => fst el =? id) els
-                      then map (fun el => if fst el =? id then (id, mid) else el) els
-                      else els ++ [(id, mid)])
-           else e
-       end.
+(* `let _ = packet.header.set_extension(ext_id, mid)`: byte-level model of C15; on Err the header
+   is unchanged *)
+Definition hdr_of (q : bpkt) : Rtp.header :=
+  Rtp.mkHdr (q_marker q) (q_pt q) (q_seq q) (q_ts q) (q_ssrc q) []
+            (match q_ext q with Some (prof, d) => Some (Rtp.mkExt prof d) | None => None end).
+Definition ext_of (h : Rtp.header) : option bext :=
+  match Rtp.h_ext h with Some e => Some (Rtp.x_profile e, Rtp.x_data e) | None => None end.
+Definition stamp (id : Z) (mid : list Z) (q : bpkt) : option bext :=
+  match Rtp.set_extension (hdr_of q) id mid with
+  | RtpLib.Ok h' => ext_of h'
+  | _ => q_ext q
+  end.
 
 Definition out_ext (b : bridge) (q : bpkt) : option bext :=
   if o_strip (b_opts b) then None
   else match rule_for (b_rules b) (q_pt q) with
        | Some r =>
            match mid_ext_id r, mid_val r with
-           | Some id, Some mid => stamp id mid (q_ext q)
+           | Some id, Some mid => stamp id mid q
            | _, _ => q_ext q
            end
        | None => q_ext q
@@ -186,3 +193,71 @@ Definition rules_from_params (ssrc_offset : Z) (fixed : option Z) (pt : option Z
   | Some (s, d) => [mkRule (Some s) fixed ssrc_offset (Some d) None None]
   | None => []
   end.
+
+(* ------------------------------------------------------------------ transport level *)
+Inductive tmode : Set :=
+| TPlain       (* no SRTP session, SRTP not required: marshal and send *)
+| TSrtp        (* SRTP session installed: protect and send *)
+| TNeedSrtp.   (* srtp_required, no session yet: drop *)
+
+Record tst : Set := mkT { t_bridge : option bridge; t_main : tmode; t_video : tmode }.
+
+Inductive bop : Set :=
+| BSet (b : bridge)            (* bridge_rewrite_*_to*: a new RewriteBridge, no per-source state *)
+| BClear                       (* clear_bridge_rewrite *)
+| BStartSrtp (video : bool)    (* start_srtp on the main / video target *)
+| BPkt (i : bin) (auth : bool). (* arriving packet; auth = it parsed and passed the source's SRTP
+                                   unprotect (always true for well-formed RTP on a plain source) *)
+
+Inductive bout : Set :=
+| Forwarded (video : bool) (o : bpkt)   (* sent to the target (plaintext shown) *)
+| Consumed (o : bpkt)                   (* rewritten, then dropped: target requires SRTP, no session *)
+| ToListeners                           (* no bridge: handed to the demultiplexer *)
+| Rejected                              (* failed unprotect / parse: dropped, nothing touched *)
+| NoOut.                                (* configuration operation *)
+
+Definition fresh_bridge (b : bridge) : bridge := set_streams b [].
+
+Definition tstep (s : tst) (o : bop) : tst * bout :=
+  match o with
+  | BSet b => (mkT (Some (fresh_bridge b)) (t_main s) (t_video s), NoOut)
+  | BClear => (mkT None (t_main s) (t_video s), NoOut)
+  | BStartSrtp v => (if v then mkT (t_bridge s) (t_main s) TSrtp else mkT (t_bridge s) TSrtp (t_video s), NoOut)
+  | BPkt i auth =>
+      if negb auth then (s, Rejected)
+      else match t_bridge s with
+           | None => (s, ToListeners)
+           | Some b =>
+               let v := is_video b (q_pt (i_pkt i)) in
+               let r := bstep b i in
+               (mkT (Some (fst r)) (t_main s) (t_video s),
+                match (if v then t_video s else t_main s) with
+                | TNeedSrtp => Consumed (snd r)
+                | _ => Forwarded v (snd r)
+                end)
+           end
+  end.
+
+Fixpoint trun (s : tst) (ops : list bop) : list bout :=
+  match ops with
+  | [] => []
+  | o :: rest => snd (tstep s o) :: trun (fst (tstep s o)) rest
+  end.
+
+(* the packets the bridge rewrote, in order (forwarded or swallowed by an SRTP-less target) *)
+Fixpoint rewritten (outs : list bout) : list bpkt :=
+  match outs with
+  | [] => []
+  | Forwarded _ o :: rest => o :: rewritten rest
+  | Consumed o :: rest => o :: rewritten rest
+  | _ :: rest => rewritten rest
+  end.
+(* the authenticated arrivals of an operation list *)
+Fixpoint auth_ins (ops : list bop) : list bin :=
+  match ops with
+  | [] => []
+  | BPkt i true :: rest => i :: auth_ins rest
+  | _ :: rest => auth_ins rest
+  end.
+Definition keeps_bridge (o : bop) : bool :=
+  match o with BSet _ | BClear => false | _ => true end.
